@@ -224,8 +224,8 @@ autodetection) and of the ten alignment readers (imported, not re-modelled). Lem
 Everything below holds for EVERY byte string: the bytes only enter through `Opened.read`, whose outcome is good for every list of lines
 (C01 `opened_read_good`). `Inv` = the alignment held by the handle (if any) is one the reader returned; it holds after open and every
 call keeps it, so the statements hold after every history of calls. `ModeOk o` = the reader delivers alignments in the handle's mode
-(digital iff an alphabet was set, with that alphabet's `Kp`): a theorem for aligned FASTA, A2M, Clustal, Clustal-like, PSI-BLAST and
-PHYLIP (default name width) - `msa_mode_ok` -; for Stockholm / Pfam / SELEX it is a hypothesis tied by the differential run (the model
+(digital iff an alphabet was set, with that alphabet's `Kp`): a theorem for aligned FASTA, A2M, Clustal, Clustal-like, PSI-BLAST, SELEX and
+PHYLIP (default name width) - `msa_mode_ok` -; for Stockholm / Pfam it is a hypothesis tied by the differential run (the model
 answers `fault` on a mismatch, the implementation cannot). -/
 
 open EaselModel.Sqio.MsaSeq EaselModel.Msafile in
@@ -278,12 +278,13 @@ theorem msa_readInfo_total (h : MsaH) (sq : Sq) (hi : Inv h) (hm : ModeOk h.o) (
   MsaSeq.readInfo_total h sq hi hm hidx hsq
 
 open EaselModel.Sqio.MsaSeq EaselModel.Msafile in
-/-- **the mode hypothesis is a theorem for seven of the ten format selections** (every alphabet, every list of lines) -/
+/-- **the mode hypothesis is a theorem for eight of the ten format selections** (every alphabet, every list of lines): all but
+    Stockholm / Pfam (one reader), where it is tied by the differential run -/
 theorem msa_mode_ok (abc : Option AbcType) (nw : Nat) :
     ModeOk ⟨.afa, abc, nw⟩ ∧ ModeOk ⟨.a2m, abc, nw⟩ ∧ ModeOk ⟨.clustal, abc, nw⟩ ∧ ModeOk ⟨.clustallike, abc, nw⟩ ∧
-    ModeOk ⟨.psiblast, abc, nw⟩ ∧ ModeOk ⟨.phylip, abc, 0⟩ ∧ ModeOk ⟨.phylips, abc, 0⟩ :=
+    ModeOk ⟨.psiblast, abc, nw⟩ ∧ ModeOk ⟨.selex, abc, nw⟩ ∧ ModeOk ⟨.phylip, abc, 0⟩ ∧ ModeOk ⟨.phylips, abc, 0⟩ :=
   ⟨modeOk_afa abc nw, modeOk_a2m abc nw, modeOk_clustal abc nw, modeOk_clustallike abc nw, modeOk_psiblast abc nw,
-   modeOk_phylip abc, modeOk_phylips abc⟩
+   modeOk_selex abc nw, modeOk_phylip abc, modeOk_phylips abc⟩
 
 open EaselModel.Sqio.MsaSeq in
 /-- **forward windows over an alignment row** (`sqascii_ReadWindow`, alignment branch, `W > 0`): from a fresh `ESL_SQ` or one holding the
